@@ -56,7 +56,9 @@ Fixpoint body_stmts (k : N) (is : list instr) : list qstmt :=
   | [] => []
   | IGate name ps ts cs :: r => SGate (len cs) name (map lit_expr ps) (cs ++ ts) :: body_stmts k r
   | IMeas kind qs :: r => map (fun jq => SMeasure k (fst jq) kind (snd jq)) (enum_from 0 qs) ++ body_stmts (k + 1) r
-  | IMeasCustom _ _ _ :: r => body_stmts (k + 1) r
+  | IMeasCustom u ud qs :: r =>
+      flat_map (fun jq => [SGate 0 "U" (map lit_expr u) [snd jq]; SMeasure k (fst jq) "measure" (snd jq); SGate 0 "U" (map lit_expr ud) [snd jq]]) (enum_from 0 qs)
+      ++ body_stmts (k + 1) r
   end.
 (* the routines the emitted header defines *)
 Definition header_defs : list (string * (list string * list string)) :=
